@@ -143,6 +143,31 @@ func genC11(env *core.Env, emit func(core.Case)) {
 				ops = append(ops, core.Op{Line: "cfg-wf " + core.Hex(enc), Kind: 'S', Note: "draft section 4 grammar accepts the encoding"})
 				valid = append(valid, enc)
 			}
+			// a parsed spec used as a template (key rotation): edit the fields, encode again - the encoding
+			// is a function of the fields as they are now, not of where the spec came from
+			if perr == nil && s.Version == 0xfe0d && rng.IntN(4) == 0 {
+				edited := got
+				edited.ID = got.ID + uint8(1+rng.IntN(200))
+				edited.PublicKey = randBytes(32)
+				edited.PublicName = append([]byte("r."), got.PublicName...)
+				if len(edited.PublicName) > 255 {
+					edited.PublicName = edited.PublicName[:255]
+				}
+				enc2, err2 := edited.Bytes()
+				line2 := fmt.Sprintf("cfg-bytes %d %d %d %s %s %s", edited.Version, edited.ID, edited.KEM, core.Hex(edited.PublicKey), suitesStr(edited.CipherSuites), core.Hex(edited.PublicName))
+				if err2 != nil {
+					ops = append(ops, core.Op{Line: line2, Kind: 'M', Want: "err", Note: "Bytes of an edited parsed spec"})
+				} else {
+					ops = append(ops, core.Op{Line: line2, Kind: 'M', Want: "ok " + core.Hex(enc2), Note: "Bytes of an edited parsed spec"})
+					w2 := ""
+					if back, e3 := ech.Config(enc2).Spec(); e3 != nil {
+						w2 = "the encoding of an edited parsed spec does not parse: " + e3.Error()
+					} else if back.ID != edited.ID || !bytes.Equal(back.PublicKey, edited.PublicKey) || !bytes.Equal(back.PublicName, edited.PublicName) {
+						w2 = fmt.Sprintf("a parsed spec was edited (id %d, new key, name %q) but Bytes() still encodes id %d, name %q", edited.ID, edited.PublicName, back.ID, back.PublicName)
+					}
+					ops = append(ops, core.Op{Kind: 'X', Note: "Bytes() encodes the current field values of a spec obtained from Spec()", Want: w2})
+				}
+			}
 		}
 		emit(core.Case{Name: name, Stream: "bytes", Ops: ops,
 			Sig:    fmt.Sprintf("bytes/%s/n%s/s%d/k%s/v%v", cls, bucket(len(s.PublicName)), len(s.CipherSuites), bucket(len(s.PublicKey)), s.Version == 0xfe0d),
